@@ -12,6 +12,8 @@ def check(run):
     for nd in ([True] if run.tier == "quick" else [True, False]):
         ast, _ = crules.unit(run, ndebug=nd)
         crules.hash_rules(run, r[0], r[1], r[2], r[3], r[4], ast)
+        crules.merge_rules(run, None, r[4], ast)          # every id of a class is kept (compared raw, not through the projection)
+        crules.publish_range_rules(run, r[2], ast)
     # "with the checked hash, every id that was not registered is reported": the checked hash is only worth something on the routes
     # that pass it - every route from an object to a v-table pointer does, under the checked policies (the C15-call rule)
     from .. import callpath, witness
